@@ -43,7 +43,7 @@ func (c *userTypesCollector) collect(node ischema.Node) {
 	case *ischema.MixedValueNode:
 		for _, ut := range strings.Split(n.Value().String(), "|") {
 			s := strings.TrimSpace(ut)
-			if s[0] == '@' {
+			if strings.HasPrefix(s, "@") {
 				c.addType(s)
 			}
 		}
@@ -62,10 +62,10 @@ func (c *userTypesCollector) collectUserTypesFromTypesListConstraint(node ischem
 	}
 
 	for _, name := range list.Names() {
-		switch name[0] {
-		case '@':
+		switch {
+		case strings.HasPrefix(name, "@"):
 			c.addType(name)
-		case '#':
+		case strings.HasPrefix(name, "#"):
 			// A rule-set: {type: "@name", nullable: true}.
 			if t, ok := c.types[name]; ok && t.Schema.RootNode() != nil {
 				c.collect(t.Schema.RootNode())
@@ -92,7 +92,7 @@ func (c *userTypesCollector) collectUserTypesFromAllOfConstraint(node ischema.No
 	}
 
 	for _, name := range allOf.SchemaNames() {
-		if name[0] == '@' {
+		if strings.HasPrefix(name, "@") {
 			c.addType(name)
 		}
 	}
